@@ -8,7 +8,7 @@ foreign-VM activity in between, resume through GetCurSeed, re-seeding a used con
 """
 import re
 
-from lib.common import Run, hx
+from lib.common import Run, hx, unhx
 
 FAMILIES = [
     ("", "2d6"), ("", "d20"), ("", "4d6k3"), ("", "3d10kl1"), ("", "d"), ("", "2d"), ("", "d优势"),
@@ -22,6 +22,8 @@ FAMILIES = [
     ("", "func fc1(){ &xc = d1000000000; [xc,xc,xc] }; fc1()"), ("", "func fr1(){ [1,2,3,4,5,6,7,8].rand() + d1000 }; fr1()"),
     ("", "&cr1 = [1,2,3,4,5,6,7,8].randSize(3); [cr1, cr1]"), ("", "func fs1(){ [1,2,3,4,5,6,7,8].shuffle() }; [fs1(), fs1()]"),
     ("", "func fo1(){ func fi1(){ [1,2,3,4,5,6,7,8].rand() }; fi1() + fi1() }; fo1()"),
+    # a computed value / function that reads a name nobody has set: what other contexts' computed bodies assigned is not its business
+    ("", "&hit = d(sq ?? 1000) + (sr ?? 0); hit + hit"), ("", "func rf1(){ d(sq ?? 500) + d(st2 ?? 700) }; rf1()"), ("", "&hu = d(sr ?? 900); &hv = hu + d(sq ?? 30); hv"),
     # dict iteration is part of the evaluation: its order may not vary from run to run
     ("", "mp = {'b':1,'a':2,'c':3,'力':4,'z9':5,'_k':6}; [mp.keys(), mp.values(), `{mp}`, mp.values().rand(), mp.keys().shuffle()]"),
     ("", "dq = {}; dq.x1 = d100; dq.a = d100; dq.m = d100; dq.items()"), ("", "[dir([1]), dir({})]"),
@@ -81,7 +83,7 @@ def main(tier):
         if mode == "M" and ("w" in cfg or "d" in cfg):
             mode = "m"        # max-mode exploding pools never terminate (C07's subject)
         a = f"runseq {cfg}{mode},L300000 {seed} {hx(src)}"
-        noise1 = f"runseq wcfd,L300000 - {hx('10d10 + 3a8 + 3c8 + b2 + f; [1,2,3,4].shuffle()')}"
+        noise1 = f"runseq wcfd,L300000 - {hx('10d10 + 3a8 + 3c8 + b2 + f; [1,2,3,4].shuffle(); &tq = sq = 2; tq; &tw = st2 = sr = 3; tw + tw; func nf1() { sq = 4 }; nf1(); &tv.a = 1; &tv')}"
         noise2 = f"runseq wcfd,L300000 {r.getrandbits(128):032x} {hx('5d10 + [1,2,3].rand()')}"
         lines += [a, noise1, noise2, a]
         meta.append((cfg, src, seed, mode))
@@ -118,6 +120,21 @@ def main(tier):
         if parts[0] != parts[1]:
             run.violation("resume-diverges", {"cfg": cfg, "seed": seed, "first_program": p, "second_program": q,
                                               "continuous": parts[0][:300], "resumed_from_GetCurSeed": parts[1][:300]})
+    # ---- the second evaluation of a program parsed once: its value AND its process text are those of a fresh context resumed from the
+    # seed reported after the first evaluation (nothing of the first evaluation's text is handed out again)
+    rl = []
+    for _ in range(150 if tier == "thorough" else 50):
+        parts = [r.choice(("3d6", "d20", "2d10k1", "4d6kh3", "d100", "2d8 + 1", "d1000")) for _i in range(r.randint(1, 3))]
+        rl.append(f"rerunresume -,L300000 {r.getrandbits(128):032x} {hx(' + '.join(parts) + r.choice(('', ' + 2', ' tail')))}")
+    for ln, g in run.go_only("rerun-resume", rl, go_timeout=120):
+        parts = g.split(" || ")
+        run.nontriv(("rerunresume", ln))
+        if len(parts) != 2:
+            run.count("rerunresume.not-run")
+            continue
+        if parts[0] != parts[1]:
+            run.violation("second-evaluation-differs-from-a-resumed-context", {"source": unhx(ln.split()[3]).decode(), "seed": ln.split()[2],
+                                                                               "second_evaluation": parts[0][:300], "resumed_from_GetCurSeed": parts[1][:300]})
     # ---- re-seeding a used context
     lines = []
     meta = []
